@@ -5,11 +5,11 @@ sys.path.insert(0, os.path.dirname(os.path.abspath(__file__)))
 import mutation_sweep as ms
 f, line, kind = sys.argv[1], int(sys.argv[2]), sys.argv[3]
 props = sys.argv[4:] or ms.ALL
-m = [m for m in ms.gen_mutants([f]) if m['line'] + 1 == line and m['kind'].startswith(kind)][0]
+m = [m for m in (ms.gen_mutants([f]) + ms.gen_swaps([f])) if m['line'] + 1 == line and m['kind'].startswith(kind)][0]
 d = ms.fresh_copy()
 p = os.path.join(d, m['file'])
 lines = open(p).read().split('\n')
-lines[m['line']] = m['new']
+lines[m['line']:m['line'] + m.get('span', 1)] = [m['new']]
 open(p, 'w').write('\n'.join(lines))
 print(m['old'].strip(), '->', m['new'].strip())
 for prop in props:
